@@ -34,6 +34,9 @@ type Config struct {
 	UnwindIsHang bool
 	Stubs       map[string]string
 	FallbackTimeoutMs int
+	// DetForced: when the running task blocks or exits, the lowest-numbered enabled task
+	// continues instead of every enabled task being explored (one schedule per input)
+	DetForced bool
 	Progress    int
 }
 
